@@ -34,3 +34,4 @@ def run(ctx):
     fo_ = [("flush", CH.flush_rows(ctx, False)[1]), ("drop", CH.flush_rows(ctx, True)[1]),
            ("abort", ctx.px(R_["abort"], inline=lambda c, d: True, key="all"))]
     CH.wake_discipline(ctx, "C08.R7.wake", fo_)
+    CH.drop_always_announces(ctx, "C08.R7.drop")
